@@ -126,7 +126,7 @@ class subdomain_deflation {
             // Value of deflation vector at the given row and column.
             std::function<double(ptrdiff_t, unsigned)> def_vec;
 
-            params() {}
+            params() : num_def_vec(0) {}
 
 #ifndef AMGCL_NO_BOOST
             params(const boost::property_tree::ptree &p)
